@@ -353,8 +353,12 @@ loop:
 		goto loop
 	}
 	if err != nil {
+		if env.codes[pc].op == opforklabel {
+			pc = len(env.codes) // a label cannot be backtracked into twice
+		}
 		return err, true
 	}
+	pc = len(env.codes) // no fork is left to resume, stay exhausted
 	return nil, false
 }
 
